@@ -103,6 +103,24 @@ def td_gate(repo):
     return [p]
 
 
+def pow_continuity_slice(repo):
+    """SendLastStateProofProcess::execute from `// Check POW for all headers.` up to `// Verify MMR proof` (PoW of ALL headers, tau check, continuity of the reorg section and of
+    the last-N section), verbatim, wrapped as a method."""
+    import re
+    from extract import Source, Piece, ExtractError
+    src = Source(repo, SLSP)
+    a = re.search(r'^[ \t]*// Check POW for all headers\.\n', src.src, re.M)
+    b = re.search(r'^[ \t]*// Verify MMR proof\n', src.src, re.M)
+    if not a or not b or b.start() < a.end():
+        raise ExtractError('the PoW / continuity statements of SendLastStateProofProcess::execute were not found in %s (anchored on their comments)' % SLSP)
+    body = src.src[a.end():b.start()]
+    p = Piece(src, body, src.src.count('\n', 0, a.end()) + 1, 'SendLastStateProofProcess::execute / PoW of all headers, tau, continuity of the reorg and last-N sections')
+    p.prefix = ('impl SendLastStateProofProcess {\n    pub fn pow_cont(&self, headers: Vec<HeaderView>, reorg_count: usize, sampled_count: usize, last_n_count: usize, '
+                'original_request: &ProveRequest) -> Status {\n')
+    p.suffix = '\n        unsafe { TAU_FAILED = Some(failed_to_verify_tau); }\n        Status::ok()\n    }\n}'
+    return [p]
+
+
 def shared(mod_name, ids, prefix, why):
     """Obligations of ANOTHER property module that also decide a clause of this property (same harness, same bounds): they are re-run under
     this property's id with the obligation id prefixed, so that a change which breaks this property through that code is reported by THIS check."""
